@@ -28,6 +28,7 @@ import Verif.Lemmas.MptStoreTrie
 import Verif.Gen.AppendFacts
 import Verif.Lemmas.LevelStore
 import Verif.Lemmas.MptRound
+import Verif.Lemmas.MergeRound
 namespace Verif.Props.C03
 open Verif.Mpt Verif.MptStore Verif.MptStore.Collector
 
@@ -56,10 +57,6 @@ theorem trie_delete_tree (H : Bytes → Bytes) (t : Trie) (p : List Nib) :
     classified.  This is the syntactic side of FRAME: the defect fixed by 736e702 (`append(nodeImpl.Path, …)` writing
     into a buffer shared with a node pending in the parent's collector) makes this obligation fail. -/
 theorem no_node_field_append : Verif.Gen.AppendFacts.noNodeFieldAppend = true := by decide
-
-/-- the events a merge replays on the parent -/
-def mergeEvents (changes : List (Change Ref)) (deletes : List Ref) : List Event :=
-  changes.map (fun c => Event.put c.old c.new) ++ deletes.map Event.del
 
 /-- Merging a child whose root equals the parent's is a no-op. -/
 theorem merge_noop (H : Bytes → Bytes) (p c : Trie) (changes : List (Change Ref)) (h : p.root = c.root) :
@@ -188,6 +185,44 @@ theorem merge_resolves_partial (H : Bytes → Bytes) (below : Bytes → Option B
     simp only [levelGet, hdb, happ]
   rw [hlevel, htree]
   exact level_resolves_partial H below t0 c.tree p0 _ hfresh hcur h0 hdisc hcov hf
+
+/-- **Merge publishes into the parent's store — one merged transaction** (closed form of `MergeResolves` for a parent
+    that executed own operations `esP` and accepts a child that executed own operations `esC` on the parent's tree):
+    the parent's new root resolves in the parent's layered store.  Proved discipline for own operations and for the
+    replay; assumed: canonical resolvable start tree, key injectivity, `GoodOrder` of `orderChanges`' output. -/
+theorem merge_resolves_one_child (H : Bytes → Bytes) (below : Bytes → Option Bytes) (t0 t1 t2 : Node) (p0 c0 : Trie)
+    (v : Nat) (esP esC : List Event)
+    (hfresh : p0.cc.changes = [] ∧ p0.cc.deletes = []) (hcur : p0.db.current = [])
+    (hfreshC : c0.cc.changes = [] ∧ c0.cc.deletes = [])
+    (h0 : Resolves H below t0 []) (hw : WF t0)
+    (hP : RoundEvents v t0 esP t1) (hC : RoundEvents v t1 esC t2)
+    (hctree : (c0.applyEvents H esC).tree = t2)
+    (hup : (p0.applyEvents H esP).root = (c0.applyEvents H esC).cc.startRoot)
+    (hne : (p0.applyEvents H esP).root ≠ (c0.applyEvents H esC).root)
+    (hgood : GoodOrder (Ref.key H) (orderChanges H (c0.applyEvents H esC).cc.getChanges))
+    (hU : KeyInjOn H (fun r => r ∈ refs t0 [] ∨ r ∈ eventRefs esP ∨ r ∈ eventRefs esC)) :
+    ∃ p', mergeMPTChanges H (p0.applyEvents H esP) (c0.applyEvents H esC) = .ok p' ∧
+      Resolves H (levelGet p' below) p'.tree [] := by
+  obtain ⟨hd, hc, hsubE⟩ := one_merge_discipline H hP hC hw c0 hfreshC _ (orderChanges_perm H _) hgood hU
+  obtain ⟨_, hcrP, hw1⟩ := round_ok hP hw (fun r => r ∈ refs t0 []) (fun _ h => h)
+  obtain ⟨_, hcrC, _⟩ := round_ok hC hw1 (fun r => r ∈ refs t1 []) (fun _ h => h)
+  -- `mergeChanges` orders the changes itself; ordering an ordered list again is what the model does
+  have hin : ∀ r, (r ∈ refs t0 [] ∨ r ∈ refs t2 [] ∨ r ∈ eventRefs (esP ++ mergeEvents (orderChanges H
+      (c0.applyEvents H esC).cc.getChanges) (c0.applyEvents H esC).cc.getDeletes)) →
+      (r ∈ refs t0 [] ∨ r ∈ eventRefs esP ∨ r ∈ eventRefs esC) := by
+    intro r hr
+    rcases hr with hr | hr | hr
+    · exact Or.inl hr
+    · rcases liveRunR_sub esC _ r (hcrC r hr) with h | h
+      · rcases liveRunR_sub esP _ r (hcrP r h) with h | h
+        · exact Or.inl h
+        · exact Or.inr (Or.inl h)
+      · exact Or.inr (Or.inr h)
+    · exact Or.inr (hsubE r hr)
+  have := merge_resolves_partial H below t0 p0 (c0.applyEvents H esC) esP (c0.applyEvents H esC).cc.getChanges
+    hfresh hcur h0 hup hne (by rw [hctree] at *; exact hd) (by rw [hctree]; exact hc)
+    (by rw [hctree]; intro a b ha hb hk; rw [hU a b (hin a ha) (hin b hb) hk])
+  simpa [mergeMPTChanges] using this
 
 /-- The full publication statement: after an accepted merge of a child whose own view resolved, the parent's new root
     resolves in the parent's layered store (`get` = read-through of the parent's level and everything below it).
